@@ -1,0 +1,554 @@
+//go:build verif
+
+// Round 5, area F: nsqd statistics and the remaining daemon plumbing (C13 C10 C08 C05 C09), checked by nsqvc. Comment-only file.
+
+package nsqd
+
+// ---- stats.go: the sort helpers ------------------------------------------------------------------------------------------
+// Len / Swap / Less of the two name-ordered lists GetStats sorts: Len is the length, Swap exchanges exactly the two positions, Less
+// compares the (immutable) names of the two objects.
+//@ func (t Topics) Len() int
+//@   props C13
+//@   ensures[length] result == len(t)
+//@   modifies
+
+//@ func (t Topics) Swap(i, j int)
+//@   props C13
+//@   requires 0 <= i && i < len(t) && 0 <= j && j < len(t)
+//@   ensures[exchanged] t[i] == old(t[j]) && t[j] == old(t[i])
+//@   ensures[others-kept] forall k int :: {t[k]} 0 <= k && k < len(t) && k != i && k != j ==> t[k] == old(t[k])
+//@   modifies elems(t)
+
+//@ func (t TopicsByName) Less(i, j int) bool
+//@   props C13
+//@   requires 0 <= i && i < len(t.Topics) && 0 <= j && j < len(t.Topics) && t.Topics[i] != nil && t.Topics[j] != nil
+//@   ensures[by-name] result == (t.Topics[i].name < t.Topics[j].name)
+//@   modifies
+
+//@ func (c Channels) Len() int
+//@   props C13
+//@   ensures[length] result == len(c)
+//@   modifies
+
+//@ func (c Channels) Swap(i, j int)
+//@   props C13
+//@   requires 0 <= i && i < len(c) && 0 <= j && j < len(c)
+//@   ensures[exchanged] c[i] == old(c[j]) && c[j] == old(c[i])
+//@   ensures[others-kept] forall k int :: {c[k]} 0 <= k && k < len(c) && k != i && k != j ==> c[k] == old(c[k])
+//@   modifies elems(c)
+
+//@ func (c ChannelsByName) Less(i, j int) bool
+//@   props C13
+//@   requires 0 <= i && i < len(c.Channels) && 0 <= j && j < len(c.Channels) && c.Channels[i] != nil && c.Channels[j] != nil
+//@   ensures[by-name] result == (c.Channels[i].name < c.Channels[j].name)
+//@   modifies
+
+// ---- stats.go: GetStats ------------------------------------------------------------------------------------------------------
+// ASSUMED interface contracts (the only implementation of Consumer / Client is *clientV2, whose Stats is VERIFIED with exactly this
+// frame in zz_contracts_stats_verif.go, and whose Type is verified below): reporting a connection changes no modelled state except
+// the record of the TLS library call. r5FStats* record the most recent Stats call through either interface.
+// r5FStatsCalls / r5FStatsTopic / r5FStatsReport: number of Stats calls, topic argument and result of the most recent one;
+// r5FReportedSet: the connections Stats was called on.
+//@ ghost r5FStatsCalls int
+//@ ghost r5FStatsTopic string
+//@ ghost r5FStatsReport ClientStats
+//@ ghost r5FReportedSet set[any]
+//@ ghostgroup r5FStatsCalls, r5FStatsTopic, r5FStatsReport, r5FReportedSet
+// the report s describes connection cl: for a *clientV2 (the only implementation) the VERIFIED postconditions of (*clientV2).Stats,
+// restated under the assumed dispatch; the counters of the connection itself are not changed by reporting them
+//@ pred r5FClientEntry(s ClientStats, cl any) := dyntype(cl) == typetag("*clientV2") && unbox(cl, "*clientV2") != nil ==> dyntype(s) == typetag("ClientV2Stats") &&
+//@        unbox(s, "ClientV2Stats").ReadyCount == unbox(cl, "*clientV2").ReadyCount && unbox(s, "ClientV2Stats").InFlightCount == unbox(cl, "*clientV2").InFlightCount &&
+//@        unbox(s, "ClientV2Stats").MessageCount == unbox(cl, "*clientV2").MessageCount && unbox(s, "ClientV2Stats").FinishCount == unbox(cl, "*clientV2").FinishCount &&
+//@        unbox(s, "ClientV2Stats").RequeueCount == unbox(cl, "*clientV2").RequeueCount && unbox(s, "ClientV2Stats").State == unbox(cl, "*clientV2").State
+//@ extern (github.com/nsqio/nsq/nsqd.Consumer).Stats(cl, topicName) (s)
+//@   ensures[describes-this-connection] r5FClientEntry(s, cl)
+//@   modifies r4EPeerCerts, r5FStatsCalls
+//@   onreturn r5FStatsCalls := r5FStatsCalls + 1
+//@   onreturn r5FStatsTopic := topicName
+//@   onreturn r5FStatsReport := s
+//@   onreturn r5FReportedSet := setadd(r5FReportedSet, cl)
+//@ extern (github.com/nsqio/nsq/nsqd.Client).Stats(cl, topicName) (s)
+//@   ensures[describes-this-connection] r5FClientEntry(s, cl)
+//@   modifies r4EPeerCerts, r5FStatsCalls
+//@   onreturn r5FStatsCalls := r5FStatsCalls + 1
+//@   onreturn r5FStatsTopic := topicName
+//@   onreturn r5FStatsReport := s
+//@   onreturn r5FReportedSet := setadd(r5FReportedSet, cl)
+// r5FTypeAsked / r5FTypeAnswer: connection and answer of the most recent Type() call
+//@ ghost r5FTypeAsked any
+//@ ghost r5FTypeAnswer int
+//@ ghostgroup r5FTypeAsked, r5FTypeAnswer
+//@ extern (github.com/nsqio/nsq/nsqd.Client).Type(cl) (ty)
+//@   modifies r5FTypeAsked
+//@   onreturn r5FTypeAsked := cl
+//@   onreturn r5FTypeAnswer := ty
+// sync.Map.Range calls the function for the entries of the table (library); the callback of GetStats appends to its captured list.
+//@ extern[in github.com/nsqio/nsq/nsqd] (*sync.Map).Range(m, f)
+//@   modifies deref([]ClientStats), elems(ClientStats), r4EPeerCerts, r5FStatsCalls, r5FTypeAsked
+
+//@ pred r5FInTopics(s []*Topic, x *Topic) := exists k int :: {s[k]} 0 <= k && k < len(s) && s[k] == x
+//@ pred r5FInChans(s []*Channel, x *Channel) := exists k int :: {s[k]} 0 <= k && k < len(s) && s[k] == x
+// the report entry ts carries the identity and the counters of topic t (current values: GetStats changes none of them)
+//@ pred r5FTopicEntry(ts TopicStats, t *Topic) := ts.TopicName == t.name && ts.MessageCount == t.messageCount && ts.MessageBytes == t.messageBytes && ts.Paused == (t.paused == 1)
+//@ pred r5FChanEntry(cs ChannelStats, c *Channel) := cs.ChannelName == c.name && cs.MessageCount == c.messageCount && cs.RequeueCount == c.requeueCount && cs.TimeoutCount == c.timeoutCount &&
+//@        cs.ZoneLocalMsgCount == c.zoneLocalMsgCount && cs.RegionLocalMsgCount == c.regionLocalMsgCount && cs.GlobalMsgCount == c.globalMsgCount && cs.Paused == (c.paused == 1)
+
+//@ modset r5FStatsFrame := NSQD.topicMap, mapstore(map[string]*Topic), Topic.channelMap, mapstore(map[string]*Channel), Channel.clients, mapstore(map[int64]Consumer),
+//@        Channel.inFlightMessages, Channel.inFlightPQ, mapstore(map[MessageID]*Message), Channel.deferredMessages, Channel.deferredPQ, mapstore(map[MessageID]*pqueue.Item),
+//@        lastBackendDepth, lastBackendDepthQueue, lastChannelDepth, lastTopicDepth, lTPauseFor, lTPauseObs, r3aPauseChecks, r4EPeerCerts, r5FStatsCalls, r5FTypeAsked, r5FGetStatsCalls, closedConn,
+//@        deref([]ClientStats), elems(ClientStats), elems(*Topic), elems(*Channel), elems(uint64)
+
+// r5FGetStats*: number of GetStats calls; receiver, arguments and the two lists of the result of the most recent one.
+//@ ghost r5FGetStatsCalls int
+//@ ghost r5FGetStatsNSQD *NSQD
+//@ ghost r5FGetStatsTopic string
+//@ ghost r5FGetStatsChannel string
+//@ ghost r5FGetStatsClients bool
+//@ ghost r5FGetStatsTopics []TopicStats
+//@ ghost r5FGetStatsProducers []ClientStats
+//@ ghostgroup r5FGetStatsCalls, r5FGetStatsNSQD, r5FGetStatsTopic, r5FGetStatsChannel, r5FGetStatsClients, r5FGetStatsTopics, r5FGetStatsProducers
+//@ func (n *NSQD) GetStats(topic string, channel string, includeClients bool) Stats
+//@   props C13 C08
+//@   onreturn r5FGetStatsCalls := r5FGetStatsCalls + 1
+//@   onreturn r5FGetStatsNSQD := n
+//@   onreturn r5FGetStatsTopic := topic
+//@   onreturn r5FGetStatsChannel := channel
+//@   onreturn r5FGetStatsClients := includeClients
+//@   onreturn r5FGetStatsTopics := result.Topics
+//@   onreturn r5FGetStatsProducers := result.Producers
+//@   requires n != nil && n.tcpServer != nil
+//@   inst Sort.r5Fgts realTopics
+//@   ensures[unknown-topic-reports-nothing] topic != "" && !atunlock(has(n.topicMap, topic), "NSQD.RWMutex") ==> len(result.Topics) == 0 && len(result.Producers) == 0
+//@   ensures[every-topic-reported] topic == "" && channel == "" ==> forall tn string :: {atunlock(n.topicMap[tn], "NSQD.RWMutex")} atunlock(has(n.topicMap, tn), "NSQD.RWMutex") ==>
+//@        exists k int :: {result.Topics[k]} 0 <= k && k < len(result.Topics) && r5FTopicEntry(result.Topics[k], atunlock(n.topicMap[tn], "NSQD.RWMutex"))
+//@   ensures[named-topic-reported] topic != "" && channel == "" && atunlock(has(n.topicMap, topic), "NSQD.RWMutex") ==> len(result.Topics) == 1 && r5FTopicEntry(result.Topics[0], atunlock(n.topicMap[topic], "NSQD.RWMutex"))
+//@   ensures[only-registered-topics] forall k int :: {result.Topics[k]} 0 <= k && k < len(result.Topics) ==> atunlock(has(n.topicMap, now(result.Topics[k].TopicName)), "NSQD.RWMutex") &&
+//@        r5FTopicEntry(result.Topics[k], atunlock(n.topicMap[now(result.Topics[k].TopicName)], "NSQD.RWMutex")) && (topic != "" ==> result.Topics[k].TopicName == topic)
+//@   ensures[no-producer-list-unless-asked] !includeClients ==> len(result.Producers) == 0 && r5FStatsCalls == old(r5FStatsCalls)
+//@   ensures[at-most-one-under-a-topic-filter] topic != "" ==> len(result.Topics) <= 1
+//@   ensures[every-entry-has-latency-reports] forall k int :: {result.Topics[k]} 0 <= k && k < len(result.Topics) ==> result.Topics[k].E2eProcessingLatency != nil &&
+//@        (forall j int :: {result.Topics[k].Channels[j]} 0 <= j && j < len(result.Topics[k].Channels) ==> result.Topics[k].Channels[j].E2eProcessingLatency != nil)
+//@   ensures[channel-filter-exact-in-every-entry] channel != "" ==> forall k int :: {result.Topics[k]} 0 <= k && k < len(result.Topics) ==> len(result.Topics[k].Channels) == 1 && result.Topics[k].Channels[0].ChannelName == channel
+//@   ensures[sorted-by-name] forall i int, j int :: {result.Topics[i], result.Topics[j]} 0 <= i && i < j && j < len(result.Topics) ==> !(result.Topics[j].TopicName < result.Topics[i].TopicName)
+//@   modifies r5FStatsFrame
+//@   loop 0
+//@     invariant[map-kept] n.topicMap == atlock(n.topicMap, "NSQD.RWMutex")
+//@     invariant[own-array] base(realTopics) == 0 || fresh(realTopics)
+//@     invariant[visited-listed] forall tn string :: {n.topicMap[tn]} visited(tn) ==> r5FInTopics(realTopics, n.topicMap[tn])
+//@     invariant[listed-usable] forall j int :: {realTopics[j]} 0 <= j && j < len(realTopics) ==> realTopics[j] != nil && realTopics[j].backend != nil
+//@     invariant[listed-registered] forall j int :: {realTopics[j]} 0 <= j && j < len(realTopics) ==> has(n.topicMap, realTopics[j].name)
+//@     invariant[listed-registered2] forall j int :: {realTopics[j]} 0 <= j && j < len(realTopics) ==> n.topicMap[realTopics[j].name] == realTopics[j]
+//@   loop 1
+//@     invariant[own-arrays] (base(realTopics) == 0 || fresh(realTopics)) && (base(topics) == 0 || fresh(topics)) && base(topics) != base(realTopics)
+//@     invariant[listed-usable] forall j int :: {realTopics[j]} 0 <= j && j < len(realTopics) ==> realTopics[j] != nil && realTopics[j].backend != nil
+//@     invariant[listed-registered] forall j int :: {realTopics[j]} 0 <= j && j < len(realTopics) ==> atunlock(has(n.topicMap, now(realTopics[j].name)), "NSQD.RWMutex")
+//@     invariant[listed-registered2a] topic == "" ==> forall j int :: {realTopics[j]} 0 <= j && j < len(realTopics) ==> atunlock(n.topicMap[now(realTopics[j].name)], "NSQD.RWMutex") == realTopics[j]
+//@     invariant[listed-registered2b] topic != "" ==> len(realTopics) == 1 && atunlock(n.topicMap[topic], "NSQD.RWMutex") == realTopics[0]
+//@     invariant[listed-named] forall j int :: {realTopics[j]} 0 <= j && j < len(realTopics) ==> (topic != "" ==> realTopics[j].name == topic)
+//@     invariant[all-registered-listed] topic == "" ==> forall tn string :: {atunlock(n.topicMap[tn], "NSQD.RWMutex")} atunlock(has(n.topicMap, tn), "NSQD.RWMutex") ==> r5FInTopics(realTopics, atunlock(n.topicMap[tn], "NSQD.RWMutex"))
+//@     invariant[list-sorted] forall i int, j int :: {realTopics[i], realTopics[j]} 0 <= i && i < j && j < len(realTopics) ==> !(realTopics[j].name < realTopics[i].name)
+//@     invariant[aligned-without-channel-filter] channel == "" ==> len(topics) == rangeindex + 1
+//@     invariant[aligned-entries] channel == "" ==> forall j int :: {topics[j]} 0 <= j && j < len(topics) ==> r5FTopicEntry(topics[j], realTopics[j])
+//@     invariant[filtered-count] len(topics) <= rangeindex + 1 && rangeindex < len(realTopics)
+//@     invariant[filtered-entries] forall k int :: {topics[k]} 0 <= k && k < len(topics) ==> exists j int :: {realTopics[j]} 0 <= j && j <= rangeindex && r5FTopicEntry(topics[k], realTopics[j])
+//@     invariant[every-entry-has-latency-reports] forall k int :: {topics[k]} 0 <= k && k < len(topics) ==> topics[k].E2eProcessingLatency != nil && allocated(base(topics[k].Channels)) &&
+//@          (forall j int :: {topics[k].Channels[j]} 0 <= j && j < len(topics[k].Channels) ==> topics[k].Channels[j].E2eProcessingLatency != nil && (channel != "" ==> topics[k].Channels[j].ChannelName == channel)) &&
+//@          (channel != "" ==> len(topics[k].Channels) == 1)
+//@     invariant[reported-sorted] forall a int, b int :: {topics[a], topics[b]} 0 <= a && a < b && b < len(topics) ==> !(topics[b].TopicName < topics[a].TopicName)
+//   per iteration (the channel map of each topic is read under that topic's own lock, so these cannot be postconditions): unless the
+//   topic lacked the named channel when its lock was released, the LAST entry of the report is the entry of the topic just walked, and
+//   its channel list is exactly the topic's channel map at that moment (or exactly the named channel), entry by entry, sorted by name
+//@     invariant[no-client-reports-unless-asked] !includeClients ==> r5FStatsCalls == old(r5FStatsCalls)
+//@     invariant[current-topic] rangeindex >= 0 ==> t == realTopics[rangeindex]
+//@     invariant[topic-skipped-only-if-channel-absent] rangeindex >= 0 && (channel == "" || atunlock(has(t.channelMap, channel), "Topic.RWMutex")) ==> len(topics) >= 1 && r5FTopicEntry(topics[len(topics) - 1], t)
+//@     invariant[last-entry-only-registered-channels] rangeindex >= 0 && (channel == "" || atunlock(has(t.channelMap, channel), "Topic.RWMutex")) ==>
+//@          forall k int :: {topics[len(topics) - 1].Channels[k]} 0 <= k && k < len(topics[len(topics) - 1].Channels) ==>
+//@             atunlock(has(t.channelMap, now(topics[len(topics) - 1].Channels[k].ChannelName)), "Topic.RWMutex") &&
+//@             r5FChanEntry(topics[len(topics) - 1].Channels[k], atunlock(t.channelMap[now(topics[len(topics) - 1].Channels[k].ChannelName)], "Topic.RWMutex")) &&
+//@             (channel != "" ==> topics[len(topics) - 1].Channels[k].ChannelName == channel)
+//@     invariant[last-entry-every-channel] rangeindex >= 0 && channel == "" ==> forall cn string :: {atunlock(t.channelMap[cn], "Topic.RWMutex")} atunlock(has(t.channelMap, cn), "Topic.RWMutex") ==>
+//@             exists k int :: {topics[len(topics) - 1].Channels[k]} 0 <= k && k < len(topics[len(topics) - 1].Channels) && topics[len(topics) - 1].Channels[k].ChannelName == cn
+//@     invariant[last-entry-named-channel] rangeindex >= 0 && channel != "" && atunlock(has(t.channelMap, channel), "Topic.RWMutex") ==> len(topics[len(topics) - 1].Channels) == 1
+//@     invariant[last-entry-channels-sorted] rangeindex >= 0 && (channel == "" || atunlock(has(t.channelMap, channel), "Topic.RWMutex")) ==>
+//@          forall a int, b int :: {topics[len(topics) - 1].Channels[a], topics[len(topics) - 1].Channels[b]} 0 <= a && a < b && b < len(topics[len(topics) - 1].Channels) ==>
+//@             !(topics[len(topics) - 1].Channels[b].ChannelName < topics[len(topics) - 1].Channels[a].ChannelName)
+//@   loop 2
+//@     invariant[map-kept] t != nil && t.channelMap == atlock(t.channelMap, "Topic.RWMutex")
+//@     invariant[own-array] base(realChannels) == 0 || fresh(realChannels)
+//@     invariant[visited-listed] forall cn string :: {t.channelMap[cn]} visited(cn) ==> r5FInChans(realChannels, t.channelMap[cn])
+//@     invariant[listed-usable] forall j int :: {realChannels[j]} 0 <= j && j < len(realChannels) ==> lChanUsable(realChannels[j])
+//@     invariant[listed-registered] forall j int :: {realChannels[j]} 0 <= j && j < len(realChannels) ==> has(t.channelMap, realChannels[j].name)
+//@     invariant[listed-registered2] forall j int :: {realChannels[j]} 0 <= j && j < len(realChannels) ==> t.channelMap[realChannels[j].name] == realChannels[j]
+//@   loop 3
+//@     invariant[own-arrays] (base(realChannels) == 0 || fresh(realChannels)) && (base(channels) == 0 || fresh(channels)) && base(channels) != base(realChannels) && t != nil && t.backend != nil
+//@     invariant[listed-usable] forall j int :: {realChannels[j]} 0 <= j && j < len(realChannels) ==> lChanUsable(realChannels[j])
+//@     invariant[listed-registered] forall j int :: {realChannels[j]} 0 <= j && j < len(realChannels) ==> atunlock(has(t.channelMap, now(realChannels[j].name)), "Topic.RWMutex")
+//@     invariant[listed-registered2] forall j int :: {realChannels[j]} 0 <= j && j < len(realChannels) ==> atunlock(t.channelMap[now(realChannels[j].name)], "Topic.RWMutex") == realChannels[j]
+//@     invariant[listed-named] forall j int :: {realChannels[j]} 0 <= j && j < len(realChannels) ==> (channel != "" ==> realChannels[j].name == channel)
+//@     invariant[named-single] channel != "" ==> len(realChannels) == 1
+//@     invariant[all-registered-listed] channel == "" ==> forall cn string :: {atunlock(t.channelMap[cn], "Topic.RWMutex")} atunlock(has(t.channelMap, cn), "Topic.RWMutex") ==> r5FInChans(realChannels, atunlock(t.channelMap[cn], "Topic.RWMutex"))
+//@     invariant[list-sorted] forall i int, j int :: {realChannels[i], realChannels[j]} 0 <= i && i < j && j < len(realChannels) ==> !(realChannels[j].name < realChannels[i].name)
+//@     invariant[aligned] len(channels) == rangeindex + 1 && rangeindex < len(realChannels)
+//@     invariant[aligned-entries] forall j int :: {channels[j]} 0 <= j && j < len(channels) ==> r5FChanEntry(channels[j], realChannels[j])
+//@     invariant[entries-have-latency-reports] forall j int :: {channels[j]} 0 <= j && j < len(channels) ==> channels[j].E2eProcessingLatency != nil
+//@     invariant[earlier-entries-keep-their-lists] forall k int :: {topics[k]} 0 <= k && k < len(topics) ==> allocated(base(topics[k].Channels)) && (base(topics[k].Channels) != base(channels) || len(topics[k].Channels) == 0) && topics[k].E2eProcessingLatency != nil &&
+//@          (forall j int :: {topics[k].Channels[j]} 0 <= j && j < len(topics[k].Channels) ==> topics[k].Channels[j].E2eProcessingLatency != nil && (channel != "" ==> topics[k].Channels[j].ChannelName == channel)) &&
+//@          (channel != "" ==> len(topics[k].Channels) == 1)
+//@     invariant[aligned-entries.by-source] forall j int :: {realChannels[j]} 0 <= j && j < len(channels) ==> channels[j].ChannelName == realChannels[j].name
+//   per iteration: the entry of the channel just reported carries the number of subscribers the channel had when its lock was released
+//   and, with include_clients, one report for EVERY subscriber (none when clients are not asked for)
+//@     invariant[no-client-reports-unless-asked] !includeClients ==> r5FStatsCalls == old(r5FStatsCalls)
+//@     invariant[current-channel] rangeindex >= 0 ==> c == realChannels[rangeindex]
+//@     invariant[last-entry-client-count] rangeindex >= 0 ==> channels[rangeindex].ClientCount == atunlock(len(c.clients), "Channel.RWMutex")
+//@     invariant[last-entry-every-client] rangeindex >= 0 && includeClients ==> forall id int64 :: {atunlock(c.clients[id], "Channel.RWMutex")} atunlock(has(c.clients, id), "Channel.RWMutex") ==>
+//@          setin(r5FReportedSet, atunlock(c.clients[id], "Channel.RWMutex"))
+//@     invariant[every-report-listed] r5FStatsCalls - atloop(r5FStatsCalls) == r5FListedClients - atloop(r5FListedClients)
+//@     invariant[entry-built-for-this-channel] rangeindex >= 0 ==> r5FChanStatsFor == c
+//@     invariant[last-entry-no-clients-unless-asked] rangeindex >= 0 && !includeClients ==> len(channels[rangeindex].Clients) == 0
+//@   loop 4
+//@     invariant[own-array] (base(clients) == 0 || fresh(clients)) && c != nil && c.backend != nil
+//@     invariant[map-kept] c.clients == atlock(c.clients, "Channel.RWMutex") && includeClients
+//@     invariant[visited-reported] forall id int64 :: {c.clients[id]} visited(id) ==> setin(r5FReportedSet, c.clients[id])
+//@     invariant[one-entry-per-report] len(clients) == r5FStatsCalls - atloop(r5FStatsCalls)
+//@     invariant[each-report-appended] len(clients) > 0 ==> clients[len(clients) - 1] == r5FStatsReport
+//@     invariant[asked-with-the-topic-filter] r5FStatsCalls > atloop(r5FStatsCalls) ==> r5FStatsTopic == topic
+
+// The callback GetStats hands to sync.Map.Range over the connection table (C13 "the producer list"): it NEVER stops the iteration
+// (always answers true), reports a connection exactly when its Type() says producer - with the caller's topic filter - appends that
+// report as the last element of the captured list and leaves the list alone for every other connection. The value of a table entry is
+// a Client (Handle stores what NewClient returned: requires[table-holds-clients], an assumption about the table's contents since
+// sync.Map is not modelled).
+//@ func (n *NSQD) GetStats$1(k interface{}, v interface{}) bool
+//@   props C13
+//@   requires[table-holds-clients] dyntype(v) == typetag("*clientV2") && unbox(v, "*clientV2") != nil
+//@   ensures[never-stops-the-walk] result
+//@   ensures[at-most-one-report] r5FStatsCalls == old(r5FStatsCalls) || r5FStatsCalls == old(r5FStatsCalls) + 1
+//@   ensures[listed-iff-producer] r5FTypeAsked == v && (r5FStatsCalls == old(r5FStatsCalls) + 1 <==> r5FTypeAnswer == typeProducer)
+//@   ensures[consumers-not-listed] r5FStatsCalls == old(r5FStatsCalls) ==> len(producerStats) == old(len(producerStats))
+//@   ensures[producer-report-appended] r5FStatsCalls == old(r5FStatsCalls) + 1 ==> len(producerStats) == old(len(producerStats)) + 1 && producerStats[len(producerStats) - 1] == r5FStatsReport &&
+//@        r5FStatsTopic == topic && setin(r5FReportedSet, v)
+//@   ensures[earlier-reports-kept] forall j int :: {producerStats[j]} 0 <= j && j < old(len(producerStats)) ==> producerStats[j] == old(producerStats[j])
+//@   modifies deref([]ClientStats), elems(ClientStats), r4EPeerCerts, r5FStatsCalls, r5FTypeAsked
+
+// ---- dummy_backend_queue.go (C08 "ephemeral channels and topics ... never reach disk") --------------------------------------------
+// The backend of an ephemeral topic / channel (NewTopic / NewChannel choose it by the name suffix: zz_contracts_ephemeral_verif.go):
+// Put ACCEPTS and DROPS (answers nil, stores nothing, touches nothing - in particular no file-system ghost and no queue), ReadChan
+// is the queue's own unbuffered channel on which nobody ever sends (the type has no sending method: every method below is `nochan`,
+// and readChan is immutable), Depth is 0, Close / Delete / Empty succeed and do nothing.
+//@ immutable dummyBackendQueue.readChan
+//@ constructors nsqd.newDummyBackendQueue
+//@ func newDummyBackendQueue() BackendQueue
+//@   props C08
+//@   nochan
+//@   ensures[a-dummy-queue] dyntype(result) == typetag("*dummyBackendQueue") && unbox(result, "*dummyBackendQueue") != nil && fresh(unbox(result, "*dummyBackendQueue"))
+//@   ensures[has-a-read-channel] unbox(result, "*dummyBackendQueue").readChan != nil
+//@   modifies
+
+//@ func (d *dummyBackendQueue) Put(p0 []byte) error
+//@   props C08
+//@   nochan
+//@   ensures[accepted] result == nil
+//@   modifies
+
+//@ func (d *dummyBackendQueue) ReadChan() <-chan []byte
+//@   props C08
+//@   nochan
+//@   requires d != nil
+//@   ensures[own-channel] result == d.readChan
+//@   modifies
+
+//@ func (d *dummyBackendQueue) Close() error
+//@   props C08
+//@   nochan
+//@   ensures[no-op] result == nil
+//@   modifies
+
+//@ func (d *dummyBackendQueue) Delete() error
+//@   props C08
+//@   nochan
+//@   ensures[no-op] result == nil
+//@   modifies
+
+//@ func (d *dummyBackendQueue) Depth() int64
+//@   props C08 C13
+//@   nochan
+//@   ensures[always-empty] result == 0
+//@   modifies
+
+//@ func (d *dummyBackendQueue) Empty() error
+//@   props C08
+//@   nochan
+//@   ensures[no-op] result == nil
+//@   modifies
+
+// ---- small getters ---------------------------------------------------------------------------------------------------------
+//@ func NewGUIDFactory(nodeID int64) *guidFactory
+//@   props C12
+//@   nochan
+//@   ensures[fresh-factory] result != nil && fresh(result) && result.nodeID == nodeID && result.sequence == 0 && result.lastTimestamp == 0 && result.lastID == 0
+//@   modifies
+
+//@ func (n *NSQD) GetStartTime() time.Time
+//@   props C13 C10
+//@   nochan
+//@   requires n != nil
+//@   ensures[the-recorded-start] result == n.startTime
+//@   modifies
+
+//@ func (n *NSQD) Context() context.Context
+//@   props C05
+//@   nochan
+//@   requires n != nil
+//@   ensures[the-daemon-context] result == n.ctx
+//@   modifies
+
+// a connection is a producer exactly when it has published to at least one topic (pubCounts non-empty under metaLock)
+//@ func (c *clientV2) Type() int
+//@   props C13
+//@   nochan
+//@   requires c != nil
+//@   ensures[producer-or-consumer] result == typeProducer || result == typeConsumer
+//@   ensures[producer-iff-it-has-published] (result == typeProducer) <==> len(c.pubCounts) > 0
+//@   modifies
+
+// ---- statsd.go: the uint64 sorter and the percentile pick ----------------------------------------------------------------------
+//@ func (s Uint64Slice) Len() int
+//@   props C13
+//@   ensures[length] result == len(s)
+//@   modifies
+
+//@ func (s Uint64Slice) Swap(i, j int)
+//@   props C13
+//@   requires 0 <= i && i < len(s) && 0 <= j && j < len(s)
+//@   ensures[exchanged] s[i] == old(s[j]) && s[j] == old(s[i])
+//@   ensures[others-kept] forall k int :: {s[k]} 0 <= k && k < len(s) && k != i && k != j ==> s[k] == old(s[k])
+//@   modifies elems(s)
+
+//@ func (s Uint64Slice) Less(i, j int) bool
+//@   props C13
+//@   requires 0 <= i && i < len(s) && 0 <= j && j < len(s)
+//@   ensures[numeric] result == (s[i] < s[j])
+//@   modifies
+
+// ---- http.go: printStats, the text form of /stats (C13 "/stats reports the same numbers in JSON and text form") ---------------------
+// Over the record of the fmt.Fprintf calls (r5F.spec): exactly one health line showing the health string it was given; one topic line
+// per topic entry of the report, IN ORDER, showing that entry's name, depth, backend depth and message count in these positions; under
+// it one channel line per channel entry of that topic showing name, depth, backend depth, in-flight, deferred, requeue, timeout and
+// message count in these positions; under it one line per subscriber report; one producer line per producer report.
+//@ ghost r5FPrintCalls int
+//@ ghost r5FPrintTopics []TopicStats
+//@ ghost r5FPrintProducers []ClientStats
+//@ ghost r5FPrintHealth string
+//@ ghost r5FPrintOut []byte
+//@ ghostgroup r5FPrintCalls, r5FPrintTopics, r5FPrintProducers, r5FPrintHealth, r5FPrintOut
+//@ pred r5FTopicLineShows(a []interface{}, t TopicStats) := len(a) == 6 && dyntype(a[1]) == typetag("string") && unbox(a[1], "string") == t.TopicName &&
+//@        dyntype(a[2]) == typetag("int64") && unbox(a[2], "int64") == t.Depth && dyntype(a[3]) == typetag("int64") && unbox(a[3], "int64") == t.BackendDepth &&
+//@        dyntype(a[4]) == typetag("uint64") && unbox(a[4], "uint64") == t.MessageCount && (unbox(a[0], "string") == "*P ") == t.Paused
+//@ pred r5FChanLineShows(a []interface{}, c ChannelStats) := len(a) == 10 && dyntype(a[1]) == typetag("string") && unbox(a[1], "string") == c.ChannelName &&
+//@        dyntype(a[2]) == typetag("int64") && unbox(a[2], "int64") == c.Depth && dyntype(a[3]) == typetag("int64") && unbox(a[3], "int64") == c.BackendDepth &&
+//@        dyntype(a[4]) == typetag("int") && unbox(a[4], "int") == c.InFlightCount && dyntype(a[5]) == typetag("int") && unbox(a[5], "int") == c.DeferredCount &&
+//@        dyntype(a[6]) == typetag("uint64") && unbox(a[6], "uint64") == c.RequeueCount && dyntype(a[7]) == typetag("uint64") && unbox(a[7], "uint64") == c.TimeoutCount &&
+//@        dyntype(a[8]) == typetag("uint64") && unbox(a[8], "uint64") == c.MessageCount && (unbox(a[0], "string") == "   *P ") == c.Paused
+//@ func (s *httpServer) printStats(stats Stats, ms *memStats, health string, startTime time.Time, uptime time.Duration) []byte
+//@   props C13
+//@   nochan
+//@   ensures[one-health-line-with-the-health-text] r5FHealthLines == old(r5FHealthLines) + 1 && len(r5FHealthArgs) == 1 && dyntype(r5FHealthArgs[0]) == typetag("string") && unbox(r5FHealthArgs[0], "string") == health
+//@   ensures[one-topic-line-per-topic] r5FTopicLines == old(r5FTopicLines) + len(stats.Topics)
+//@   ensures[one-producer-line-per-producer] r5FProducerLines == old(r5FProducerLines) + len(stats.Producers)
+//@   modifies r5FLines, r5FPrintCalls
+//@   onreturn r5FPrintCalls := r5FPrintCalls + 1
+//@   onreturn r5FPrintTopics := stats.Topics
+//@   onreturn r5FPrintProducers := stats.Producers
+//@   onreturn r5FPrintHealth := health
+//@   onreturn r5FPrintOut := result
+//@   loop 0
+//@     invariant[health-line-done] r5FHealthLines == old(r5FHealthLines) + 1 && fresh(r5FHealthArgs) && len(r5FHealthArgs) == 1 && dyntype(r5FHealthArgs[0]) == typetag("string") && unbox(r5FHealthArgs[0], "string") == health
+//@     invariant[one-topic-line-each] r5FTopicLines == old(r5FTopicLines) + rangeindex + 1 && rangeindex < len(stats.Topics) && r5FProducerLines == old(r5FProducerLines)
+//@     invariant[topic-line-shows-the-entry] rangeindex >= 0 ==> fresh(r5FTopicArgs) && r5FTopicLineShows(r5FTopicArgs, stats.Topics[rangeindex])
+//@   loop 1
+//@     invariant[outer] r5FHealthLines == old(r5FHealthLines) + 1 && fresh(r5FHealthArgs) && len(r5FHealthArgs) == 1 && dyntype(r5FHealthArgs[0]) == typetag("string") && unbox(r5FHealthArgs[0], "string") == health && r5FProducerLines == old(r5FProducerLines)
+//@     invariant[topic-line-stays] r5FTopicLines == atloop(r5FTopicLines) && r5FTopicArgs == atloop(r5FTopicArgs) && fresh(r5FTopicArgs) && r5FTopicLineShows(r5FTopicArgs, t)
+//@     invariant[one-channel-line-each] r5FChanLines == atloop(r5FChanLines) + rangeindex + 1
+//@     invariant[channel-line-shows-the-entry] rangeindex >= 0 ==> fresh(r5FChanArgs) && r5FChanLineShows(r5FChanArgs, t.Channels[rangeindex])
+//@   loop 2
+//@     invariant[outer] r5FHealthLines == old(r5FHealthLines) + 1 && fresh(r5FHealthArgs) && len(r5FHealthArgs) == 1 && dyntype(r5FHealthArgs[0]) == typetag("string") && unbox(r5FHealthArgs[0], "string") == health && r5FProducerLines == old(r5FProducerLines)
+//@     invariant[other-lines-stay] r5FTopicLines == atloop(r5FTopicLines) && r5FTopicArgs == atloop(r5FTopicArgs) && r5FChanLines == atloop(r5FChanLines) && r5FChanArgs == atloop(r5FChanArgs) &&
+//@          fresh(r5FTopicArgs) && r5FTopicLineShows(r5FTopicArgs, t) && fresh(r5FChanArgs) && r5FChanLineShows(r5FChanArgs, c)
+//@     invariant[one-line-per-subscriber] r5FClientLines == atloop(r5FClientLines) + rangeindex + 1
+//@     invariant[subscriber-line-shows-the-report] rangeindex >= 0 ==> fresh(r5FClientArgs) && len(r5FClientArgs) == 1 && r5FClientArgs[0] == c.Clients[rangeindex]
+//@   loop 3
+//@     invariant[outer] r5FHealthLines == old(r5FHealthLines) + 1 && fresh(r5FHealthArgs) && len(r5FHealthArgs) == 1 && dyntype(r5FHealthArgs[0]) == typetag("string") && unbox(r5FHealthArgs[0], "string") == health && r5FTopicLines == old(r5FTopicLines) + len(stats.Topics)
+//@     invariant[one-producer-line-each] r5FProducerLines == old(r5FProducerLines) + rangeindex + 1 && rangeindex < len(stats.Producers)
+//@     invariant[producer-line-shows-the-report] rangeindex >= 0 ==> fresh(r5FProducerArgs) && len(r5FProducerArgs) == 1 && r5FProducerArgs[0] == stats.Producers[rangeindex]
+
+// percentile: an element of the first `length` numbers of the list (0 for an empty list).
+//@ func percentile(perc float64, arr []uint64, length int) uint64
+//@   props C13
+//@   nochan
+//@   requires 0 <= length && length <= len(arr)
+//@   requires[rank-is-a-percentage] perc >= 0 && perc <= 100
+//@   ensures[empty] length == 0 ==> result == 0
+//@   ensures[an-element] length > 0 ==> exists k int :: {arr[k]} 0 <= k && k < length && result == arr[k]
+//@   modifies
+
+// getMemStats: reads the runtime's memory statistics into a local structure; nothing of the daemon changes.
+//   (frame: sort.Sort is assumed with a type-wide frame - r5F.spec - so the three element stores it may permute are listed)
+//@ func getMemStats() memStats
+//@   props C13
+//@   nochan
+//@   modifies elems(*Topic), elems(*Channel), elems(uint64)
+
+// ---- http.go: GET /stats (C13 "/stats reports the same numbers in JSON and text form and under topic/channel filters") ----------------
+// Unreadable query -> 400 INVALID_REQUEST and no snapshot. Otherwise never an error, and exactly ONE snapshot is taken, of THIS daemon,
+// with the `topic` / `channel` arguments of the request as filters ("" when absent) and include_clients = the table value of the
+// include_clients argument, true when absent or not in the table. Text form (format != "json"): the answer is the byte slice printStats
+// returned for exactly that snapshot (same topic list, same producer list) and the daemon's current health text; JSON form: printStats
+// is not called. (The JSON answer is an anonymous struct: its fields cannot be named in a contract - engine gap, notes.)
+//@ func (s *httpServer) doStats(w http.ResponseWriter, req *http.Request, ps httprouter.Params) (interface{}, error)
+//@   props C13 C10
+//@   requires s != nil && s.nsqd != nil && s.nsqd.tcpServer != nil && r4EHealthInit(s.nsqd) && http_api.mServerReq(req)
+//@   ensures[invalid-request] jReqErr != nil ==> jHttpErrT(result1, 400, "INVALID_REQUEST") && result0 == nil && r5FGetStatsCalls == old(r5FGetStatsCalls) && r5FPrintCalls == old(r5FPrintCalls)
+//@   ensures[never-fails-otherwise] jReqErr == nil ==> result1 == nil
+//@   ensures[one-snapshot-of-this-daemon] jReqErr == nil ==> r5FGetStatsCalls == old(r5FGetStatsCalls) + 1 && r5FGetStatsNSQD == s.nsqd
+//@   ensures[filters-are-the-request-arguments] jReqErr == nil ==> r5FGetStatsTopic == (has(jV(), "topic") ? jV()["topic"][0] : "") && r5FGetStatsChannel == (has(jV(), "channel") ? jV()["channel"][0] : "")
+//@   ensures[clients-unless-switched-off] jReqErr == nil ==> r5FGetStatsClients == (has(boolParams, (has(jV(), "include_clients") ? jV()["include_clients"][0] : "")) ? boolParams[(has(jV(), "include_clients") ? jV()["include_clients"][0] : "")] : true)
+//@   ensures[text-prints-the-snapshot] jReqErr == nil && !(has(jV(), "format") && jV()["format"][0] == "json") ==> r5FPrintCalls == old(r5FPrintCalls) + 1 && r5FPrintTopics == r5FGetStatsTopics &&
+//@        r5FPrintProducers == r5FGetStatsProducers && dyntype(result0) == typetag("[]byte") && unbox(result0, "[]byte") == r5FPrintOut &&
+//@        (r4EHealthErr(s.nsqd) == nil ==> r5FPrintHealth == "OK") && (r4EHealthErr(s.nsqd) != nil ==> r5FPrintHealth == r4ENokText(r4EHealthErr(s.nsqd)))
+//@   ensures[json-prints-nothing] jReqErr == nil && has(jV(), "format") && jV()["format"][0] == "json" ==> r5FPrintCalls == old(r5FPrintCalls) && result0 != nil
+//@   modifies mRP, r5FStatsFrame, r5FLines, r5FPrintCalls, mClock
+
+// ---- http.go: the debug handlers and GET /info (C10 "400 for bad arguments ... no complete request is answered 500") ----------------
+// PUT /debug/setblockrate?rate=N : not a decimal integer -> 400 and the profile rate is NOT touched; otherwise the rate is set once to
+// exactly the parsed number and the answer is empty.
+//@ func setBlockRateHandler(w http.ResponseWriter, req *http.Request, ps httprouter.Params) (interface{}, error)
+//@   props C10
+//@   nochan
+//@   requires req != nil
+//@   ensures[bad-rate-400-and-nothing-set] r5FAtoiErr != nil ==> httpErr(result1, 400) && result0 == nil && r5FBlockRateSets == old(r5FBlockRateSets)
+//@   ensures[rate-set-once-to-the-number] r5FAtoiErr == nil ==> result1 == nil && result0 == nil && r5FBlockRateSets == old(r5FBlockRateSets) + 1 && r5FBlockRate == r5FAtoiVal
+//@   modifies r5FAtoiVal, r5FBlockRateSets, req.Form, req.PostForm, req.MultipartForm, req.Body
+
+// POST /debug/freememory : asks the runtime once; empty answer, never an error.
+//@ func freeMemory(w http.ResponseWriter, req *http.Request, ps httprouter.Params) (interface{}, error)
+//@   props C10
+//@   nochan
+//@   ensures[asked-once-no-error] result0 == nil && result1 == nil && r5FFreeMemCalls == old(r5FFreeMemCalls) + 1
+//@   modifies r5FFreeMemCalls
+
+// GET /info : 500 only when the host name cannot be read (os.Hostname failed: not a property of the request); otherwise never an
+// error and a non-nil document; nothing of the daemon changes. No panic: the `.(*net.TCPAddr)` assertions are guarded by
+// Network() == "tcp" (r5F.spec [tcp-means-tcpaddr]).
+//@ func (s *httpServer) doInfo(w http.ResponseWriter, req *http.Request, ps httprouter.Params) (interface{}, error)
+//@   props C10
+//@   nochan
+//@   requires s != nil && s.nsqd != nil
+//@   ensures[typed-error] result1 != nil ==> httpErr(result1, 500) && result0 == nil
+//@   ensures[document] result1 == nil ==> result0 != nil
+//@   modifies
+
+// ---- http.go: newHTTPServer, the route table (C10 "405/404 for wrong method/path"; "create, delete, empty and pause/unpause endpoints") ---
+// Over the record of the httprouter registrations (r5F.spec): the server object carries the daemon and the two TLS flags it was given and
+// a fresh router on which EVERY registration of this call was made; the router answers 405 for a known path under a wrong method
+// (HandleMethodNotAllowed); the tables are EXACT per method - a path is registered under POST by this call iff it is one of /pub, /mpub,
+// the ten topic / channel create / delete / empty / pause / unpause endpoints, /debug/pprof/symbol and /debug/freememory; under GET iff it
+// is /ping, /info, /stats, /config/:opt or a pprof page; under PUT iff it is /config/:opt or /debug/setblockrate; under no other method.
+// So every state-changing endpoint is reachable by POST only (PUT for the two settings), never by GET.
+// NOT stated (engine gap, notes): WHICH handler and which decorators sit under a path - function values have no identity in the engine.
+//@ ghost r5FServersBuilt int
+//@ ghost r5FServerFor *NSQD
+//@ ghost r5FServerTLSEnabled bool
+//@ ghost r5FServerTLSRequired bool
+//@ ghostgroup r5FServersBuilt, r5FServerFor, r5FServerTLSEnabled, r5FServerTLSRequired
+//@ pred r5FIsPostPath(p string) := p == "/pub" || p == "/mpub" || p == "/topic/create" || p == "/topic/delete" || p == "/topic/empty" || p == "/topic/pause" || p == "/topic/unpause" ||
+//@        p == "/channel/create" || p == "/channel/delete" || p == "/channel/empty" || p == "/channel/pause" || p == "/channel/unpause" || p == "/debug/pprof/symbol" || p == "/debug/freememory"
+//@ pred r5FIsGetPath(p string) := p == "/ping" || p == "/info" || p == "/stats" || p == "/config/:opt" || p == "/debug/pprof/" || p == "/debug/pprof/cmdline" || p == "/debug/pprof/symbol" ||
+//@        p == "/debug/pprof/profile" || p == "/debug/pprof/heap" || p == "/debug/pprof/goroutine" || p == "/debug/pprof/block" || p == "/debug/pprof/threadcreate"
+//@ pred r5FIsPutPath(p string) := p == "/config/:opt" || p == "/debug/setblockrate"
+//@ func newHTTPServer(nsqd *NSQD, tlsEnabled bool, tlsRequired bool) *httpServer
+//@   props C10
+//@   nochan
+//@   requires nsqd != nil
+//@   ensures[server-object] result != nil && fresh(result) && result.nsqd == nsqd && result.tlsEnabled == tlsEnabled && result.tlsRequired == tlsRequired
+//@   ensures[own-fresh-router] dyntype(result.router) == typetag("*httprouter.Router") && unbox(result.router, "*httprouter.Router") != nil && fresh(unbox(result.router, "*httprouter.Router")) &&
+//@        r5FRouteRouter == unbox(result.router, "*httprouter.Router")
+//@   ensures[wrong-method-is-405] unbox(result.router, "*httprouter.Router").HandleMethodNotAllowed
+//@   ensures[twenty-eight-registrations] r5FRoutes == old(r5FRoutes) + 28
+//@   ensures[post-routes-exactly] forall p string :: {setin(r5FPostRoutes, p)} setin(r5FPostRoutes, p) <==> (old(setin(r5FPostRoutes, p)) || r5FIsPostPath(p))
+//@   ensures[get-routes-exactly] forall p string :: {setin(r5FGetRoutes, p)} setin(r5FGetRoutes, p) <==> (old(setin(r5FGetRoutes, p)) || r5FIsGetPath(p))
+//@   ensures[put-routes-exactly] forall p string :: {setin(r5FPutRoutes, p)} setin(r5FPutRoutes, p) <==> (old(setin(r5FPutRoutes, p)) || r5FIsPutPath(p))
+//@   ensures[no-other-method] r5FOtherMethodRoutes == old(r5FOtherMethodRoutes)
+//@   modifies r5FRoutes, r5FServersBuilt
+//   r5FServersBuilt / r5FServerFor / r5FServerTLSEnabled / r5FServerTLSRequired: number of servers built, daemon and TLS flags of the latest
+//@   onreturn r5FServersBuilt := r5FServersBuilt + 1
+//@   onreturn r5FServerFor := nsqd
+//@   onreturn r5FServerTLSEnabled := tlsEnabled
+//@   onreturn r5FServerTLSRequired := tlsRequired
+
+// ---- tcp.go: tcpServer.Close (C05 "Exit: stop listeners ..."; C09 "fatal errors close only that connection") -----------------------------
+// The callback handed to sync.Map.Range over the connection table: it closes THE connection of the entry it is given (one Close call,
+// on that client) and never stops the walk, so - Range calling it for every entry (library) - every connection in the table is closed.
+// The table holds the clients Handle stored (r4E: [registered-once-in-this-table]): requires[table-holds-clients].
+//@ func (p *tcpServer) Close$1(k interface{}, v interface{}) bool
+//@   props C05 C09
+//@   requires[table-holds-clients] dyntype(v) == typetag("*clientV2") && unbox(v, "*clientV2") != nil
+//@   ensures[never-stops-the-walk] result
+//@   ensures[closes-this-connection] r5FClientCloses == old(r5FClientCloses) + 1 && r5FClientClosed == v && closedConn == unbox(v, "*clientV2").Conn
+//@   modifies closedConn
+
+//@ func (p *tcpServer) Close()
+//@   props C05 C09
+//@   requires p != nil
+//@   modifies deref([]ClientStats), elems(ClientStats), r4EPeerCerts, r5FStatsCalls, r5FTypeAsked, closedConn
+
+// ---- nsqd.go: Main (C05 anchors; C10 "TLS gate") ----------------------------------------------------------------------------------------
+// Main builds one HTTP server per configured listener - the plain one with tlsEnabled = false and tlsRequired exactly when the option
+// says "required for everything", the HTTPS one with both flags set (so ServeHTTP's 403 gate can only fire on the plain listener) -
+// hands the accept loops and the background loops to the wait group (WaitGroupWrapper.Wrap is `benign`: goroutines are not followed,
+// so that they are started is NOT recorded) and returns only after ONE receive from the exit channel, which nobody but the once-guarded
+// exit function writes to. Main$1$1 (the body run by once.Do): exactly one send, of the error it was given.
+//@ func (n *NSQD) Main() error
+//@   props C05 C10
+//@   requires n != nil
+//@   ensures[one-server-per-listener] r5FServersBuilt == old(r5FServersBuilt) + (n.httpListener != nil ? 1 : 0) + (n.httpsListener != nil ? 1 : 0)
+//@   ensures[https-server-enforces-tls] n.httpsListener != nil ==> r5FServerFor == n && r5FServerTLSEnabled && r5FServerTLSRequired
+//@   ensures[plain-server-gate-follows-the-option] n.httpsListener == nil && n.httpListener != nil ==> r5FServerFor == n && !r5FServerTLSEnabled && r5FServerTLSRequired == (curOpts(n).TLSRequired == TLSRequired)
+//@   ensures[returns-after-one-exit-signal] recvd(final(exitCh)) == 1 && sent(final(exitCh)) == 0
+//@   modifies r5FRoutes, r5FServersBuilt, chanstore(error)
+
+//@ func (n *NSQD) Main$1$1()
+//@   props C05
+//@   requires n != nil
+//@   ensures[passes-the-error-on-once] sent(exitCh) == old(sent(exitCh)) + 1 && lastsent(exitCh) == err
+//@   modifies chanstore(error)
+
+// ---- client_v2.go: the remaining getters ----------------------------------------------------------------------------------------------
+// String: the remote address text of the connection (used in every log line); no effect.
+//   (callers - QueryAuthd splits it into host and port - need the exact value: before this contract existed the body was inlined)
+//@ func (c *clientV2) String() string
+//@   props C09 C13 C11
+//@   nochan
+//@   requires c != nil && c.Conn != nil
+//@   ensures[remote-address-text] result == addrString(remoteOf(c.Conn))
+//@   modifies
+
+// GetVersion / GetCipherSuite: pure table look-ups over the negotiated TLS parameters (the TLS columns of a connection's report);
+// the four protocol versions by their wire numbers (0x0301 .. 0x0304), no effect on anything.
+//@ func (p *prettyConnectionState) GetVersion() string
+//@   props C13
+//@   nochan
+//@   requires p != nil
+//@   ensures[tls10] p.Version == 769 ==> result == "TLS1.0"
+//@   ensures[tls11] p.Version == 770 ==> result == "TLS1.1"
+//@   ensures[tls12] p.Version == 771 ==> result == "TLS1.2"
+//@   ensures[tls13] p.Version == 772 ==> result == "TLS1.3"
+//@   modifies
+
+//@ func (p *prettyConnectionState) GetCipherSuite() string
+//@   props C13
+//@   nochan
+//@   requires p != nil
+//@   ensures[rc4-128-sha] p.CipherSuite == 5 ==> result == "TLS_RSA_WITH_RC4_128_SHA"
+//@   ensures[ecdhe-rsa-aes128-gcm] p.CipherSuite == 49199 ==> result == "TLS_ECDHE_RSA_WITH_AES_128_GCM_SHA256"
+//@   ensures[ecdhe-ecdsa-aes128-gcm] p.CipherSuite == 49195 ==> result == "TLS_ECDHE_ECDSA_WITH_AES_128_GCM_SHA256"
+//@   modifies
